@@ -1,11 +1,26 @@
 #include <stddef.h>
 #include <string.h>
+/* C model of the system calls ShmReader::new makes (linked into the Kani harness with -Z c-ffi):
+   one file whose content and length the harness chooses, one descriptor (3) whose open/closed state is tracked,
+   read() may fail (a directory: EISDIR), close() of a descriptor that is not open fails with EBADF. */
 unsigned char VERIF_FILE[72];
 size_t VERIF_FLEN;
 unsigned long VERIF_MAP[9];
-int open(const char *p, int f, ...) { return 3; }
-int close(int fd) { return 0; }
+int VERIF_READ_FAILS;
+int VERIF_FD_OPEN;
+int VERIF_CLOSES;
+static int verif_errno;
+int *__errno_location(void) { return &verif_errno; }
+int open(const char *p, int f, ...) { VERIF_FD_OPEN = 1; return 3; }
+int close(int fd) {
+  VERIF_CLOSES++;
+  if (fd != 3 || !VERIF_FD_OPEN) { verif_errno = 9; return -1; }
+  VERIF_FD_OPEN = 0;
+  return 0;
+}
 long read(int fd, void *buf, size_t count) {
+  if (fd != 3 || !VERIF_FD_OPEN) { verif_errno = 9; return -1; }
+  if (VERIF_READ_FAILS) { verif_errno = 21; return -1; }
   size_t n = count < VERIF_FLEN ? count : VERIF_FLEN;
   memcpy(buf, VERIF_FILE, n);
   return (long)n;
